@@ -177,7 +177,7 @@ Section xplain_run.
   Qed.
 
   Lemma verdict_out s d a : fc s = fcd d -> gd <= d -> idx s < ms ->
-    exists s1 tr sv, entry_check c s a = (s1, V_OUT, tr, sv).
+    exists s1 tr sv, entry_check c s a = (s1, V_OUT, tr, sv) /\ state_trig tr = false.
   Proof.
     intros Hfc Hd Hi. unfold entry_check.
     rewrite (check_rstack_ok c s) by exact Hi. cbn [fc enabled cached stack ridx out warned].
@@ -186,7 +186,7 @@ Section xplain_run.
     subst c. cbn [plain trig_of notrig t_filter t_depth t_time t_size t_trace_on t_trace_off fmode_in gdepth shp andb].
     unfold with_fc. cbn [fcd fc enabled cached stack ridx out warned in_count out_count depth max_depth ftime fsize].
     assert (E : (gd <=? d) = true) by (apply N.leb_le; exact Hd). rewrite E.
-    eexists. eexists. eexists. reflexivity.
+    eexists. eexists. eexists. split; reflexivity.
   Qed.
 
   (* the extension of a freshly pushed recorded frame *)
@@ -244,9 +244,9 @@ Section xplain_run.
     intros Hs Hfc Hd Hi. unfold x_enter.
     change (xb C) with c.
     rewrite x_first_off.
-    destruct (verdict_out s d a Hfc Hd Hi) as (s1 & tr & sv & EC). rewrite EC.
+    destruct (verdict_out s d a Hfc Hd Hi) as (s1 & tr & sv & EC & ST). rewrite EC.
     rewrite (x_check_rstack_ok s X Hi).
-    subst c. cbn [plain shp]. rewrite Hs. reflexivity.
+    subst c. cbn [plain shp]. rewrite Hs, ST. reflexivity.
   Qed.
 
   Lemma x_enter_out_cyg s X d a t o : sh = CYG -> fc s = fcd d -> gd <= d -> idx s < ms ->
@@ -255,7 +255,7 @@ Section xplain_run.
     intros Hs Hfc Hd Hi. unfold x_enter.
     change (xb C) with c.
     rewrite x_first_off.
-    destruct (verdict_out s d a Hfc Hd Hi) as (s1 & tr & sv & EC). rewrite EC.
+    destruct (verdict_out s d a Hfc Hd Hi) as (s1 & tr & sv & EC & _). rewrite EC.
     rewrite (x_check_rstack_ok s X Hi).
     destruct (enter_out_cyg thr gd ms sh s d a t Hs Hfc Hd Hi) as [Een _]. fold c in Een. rewrite Een.
     cbn [stack]. assert (Hsh : shp c = CYG) by (subst c; cbn [plain shp]; exact Hs). rewrite Hsh.
